@@ -25,7 +25,7 @@ class C05(C.ProgramDiff):
             'transparent positions, queried with 3 queries (half of them derived from clause heads); (b) bounded-exhaustive: clause '
             'bodies with <= 2 leaves and a quarter of the 3-leaf ones (thorough: all <= 3 leaves and all 4-leaf ones without negation) over {m0,m1,m2,true,fail,!,is1,r2} x {",",";","->"} (+ one \\+ at any '
             'node) that contain a cut, as middle clause of a 3-clause predicate called as w(W), t(..), w(W2). Answers '
-            'compared with reference R (and R with the second engine). Non-trivial = a cut is reached in R\'s run and '
+            'compared with reference R (and R with the second engine). (c) soak: one engine, 6^5 cuts inside one enumeration and 12 000 (thorough 60 000) repeated queries with cuts - the answers must not change. Non-trivial = a cut is reached in R\'s run and '
             'prunes, i.e. R with every ! replaced by true gives a different answer sequence; distinct = SHA-1 of '
             'program text + queries.')
     assumptions = ['CPython 3.12 of /venv', 'reference interpreter R cross-checked with explicit-stack engine M',
@@ -93,6 +93,47 @@ class C05(C.ProgramDiff):
 
     def keep_body(self, b):
         return B.has(b, ('cut',))
+
+    SOAK_TEXT = ('d(1). d(2). d(3). d(4). d(5). d(6).\nfirst(X) :- d(X), !.\nfirst(none).\n'
+                 'pick(X) :- ( d(X), X = 3 -> true ; X = no ).\none(X) :- once(d(X)).\n'
+                 'run(A, B, C, D, E) :- d(A), d(B), d(C), d(D), d(E), first(_).\n')
+
+    def extra_checks(self, tier, seed):
+        """soak: one engine, many executed cuts (inside one long enumeration and over many queries): the answers at the
+        end must be the answers at the beginning - bookkeeping that a cut leaves behind accumulates only here"""
+        if self.id != 'C05':
+            return []
+        case = {'text': self.SOAK_TEXT, 'clauses': [], 'queries': [], 'soak': 12000 if tier == 'quick' else 60000}
+        return [(case, self.decide(case))]
+
+    def decide(self, case):
+        if case.get('soak'):
+            return self.decide_soak(case)
+        return C.ProgramDiff.decide(self, case)
+
+    def decide_soak(self, case):
+        from ..runner import OK, FAIL
+        from .. import impl
+        text, n = case['text'], case['soak']
+        yp = impl.YP()
+        yp.load_script_from_string(impl.compile_text(text))
+
+        def ans(name, k):
+            vs = [yp.variable() for _ in range(k)]
+            return [tuple(impl.to_python(v) for v in vs) for _ in yp.query(name, vs)]
+        first0, pick0, one0 = ans('first', 1), ans('pick', 1), ans('one', 1)
+        if first0 != [(1,)] or pick0 != [(3,)] or one0 != [(1,)]:
+            return FAIL('soak:wrong-answers-at-the-start', {'text': text, 'first': first0, 'pick': pick0, 'one': one0})
+        long_run = len(ans('run', 5))
+        if long_run != 6 ** 5:
+            return FAIL('soak:long-enumeration-with-cuts-loses-answers', {'text': text, 'expected': 6 ** 5, 'observed': long_run})
+        for i in range(n):
+            a = ans('first', 1)
+            if a != first0:
+                return FAIL('soak:answers-change-after-many-cuts', {'text': text, 'query': 'first(X)', 'repetition': i, 'expected': first0, 'observed': a})
+        if ans('pick', 1) != pick0 or ans('one', 1) != one0 or len(ans('run', 5)) != 6 ** 5:
+            return FAIL('soak:answers-change-after-many-cuts', {'text': text, 'after': n})
+        return OK(True, ['soak:%d-queries-with-cuts-and-one-enumeration-executing-%d-cuts-on-one-engine' % (n, 6 ** 5)])
 
     def enumerate(self, tier):
         import os
